@@ -37,6 +37,9 @@ def outcome_classes(transport):
         "rejected_after_1": {"script": [["drop"], ["exc", 2, 3]]},
         "garbage_then_silence": {"script": [["garbage", 3]]},
         "fragment_then_silence": {"script": [["lone", 9, 3]]},
+        # answered in two pieces (both in time); answered by a first fragment followed by the complete frame (long read)
+        "success_fragmented": {"script": [["frag", 9, 2, 6]]},
+        "fragment_then_full_long": {"script": [["frag_then_full", 14, 2, 4]], "command": ["read", 35100, 8]},
     }
     if transport == "tcp":
         common.update({
@@ -66,6 +69,11 @@ def build_steps(transport, prefix, gap, probe):
         else:
             st = dict(classes[name])
             st["op"] = "request"
+            if "command" in st:
+                if transport == "aa55":
+                    st = {"op": "request", "script": [["frag", 9, 2, 6]]}  # AA55 answers all have one length: plain fragmented success
+                else:
+                    st["command"] = tuple(st["command"])
             steps.append(st)
         if gap == "idle" and name != "newloop":
             steps.append({"op": "idle"})
@@ -79,9 +87,25 @@ def check_history(acc: Acc, case):
     acc.case()
     transport, T, R = case["transport"], case["T"], case["R"]
     prefix = case["prefix"]
-    k = case.get("k")  # None: silent probe; int: probe answered on its k-th retransmission
-    probe_script = [] if k is None else [["drop"]] * k + [["answer", 2]]
+    k = case.get("k")  # None: silent probe; int: answered on its k-th retransmission; str: a slow but valid single answer
+    probe_cmd = None
+    if k is None:
+        probe_script = []
+    elif isinstance(k, int):
+        probe_script = [["drop"]] * k + [["answer", 2]]
+    elif k.startswith("slow:"):
+        probe_script = [["answer", int(k.split(":")[1])]]
+    elif k.startswith("fragslow:"):
+        _, d1, d2 = k.split(":")
+        probe_script = [["frag", 9, int(d1), int(d2)]]
+    elif k == "short":
+        probe_script = [["answer", 1]]
+        probe_cmd = ["read", 35100, 1]
+    else:
+        raise ValueError(k)
     steps = build_steps(transport, prefix, case.get("gap", 0), probe_script)
+    if probe_cmd and transport != "aa55":
+        steps[-1]["command"] = probe_cmd
     full = dict(case)
     full["steps"] = steps
     if any(p not in ("success", "success_late_in_time") for p in prefix):
@@ -115,6 +139,15 @@ def check_history(acc: Acc, case):
             fails.append(("C05|%s|probe-outcome" % cfg, "silent probe ended with %s" % probe.kind, case))
         if any(not netcase.same_request(transport, probe.tx[0][2], e[2]) for e in probe.tx):
             fails.append(("C05|%s|probe-not-identical" % cfg, "retransmissions of the probe differ", case))
+    elif isinstance(k, str):
+        if probe.kind != "ok":
+            fails.append(("C05|%s|valid-slow-answer-not-accepted" % cfg,
+                          "probe with a single valid answer (%s) after prefix %s (gap %s) ended with %s, transmissions at %s" % (
+                              k, prefix, case.get("gap", 0), probe.kind, times), case))
+        elif len(times) != 1:
+            fails.append(("C05|%s|valid-slow-answer-retransmitted" % cfg,
+                          "probe with a single valid answer (%s) after prefix %s (gap %s) needed %d transmissions at %s" % (
+                              k, prefix, case.get("gap", 0), len(times), times), case))
     else:
         want = [i * T for i in range(k + 1)]
         if probe.kind != "ok":
@@ -138,7 +171,7 @@ def enum_job(job):
     names = list(outcome_classes(transport)) + ["close", "newloop"]
     for n in (0, 1, 2):
         for prefix in itertools.product(names, repeat=n):
-            for k in (None, R):
+            for k in (None, R, "slow:15", "slow:9", "fragslow:3:14", "short"):
                 case = {"transport": transport, "keep": keep, "T": T, "R": R, "prefix": list(prefix), "gap": gap,
                         "k": k, "latency": 0}
                 _apply(acc, case)
@@ -160,7 +193,9 @@ def hyp_job(job):
         return {"transport": transport, "keep": draw(st.booleans()), "T": draw(st.sampled_from((0.5, 1.0, 2.0, 4.0))),
                 "R": R, "prefix": draw(st.lists(st.sampled_from(names), min_size=1, max_size=8)),
                 "gap": draw(st.one_of(st.just(0), st.just("idle"), st.integers(1, 40))),
-                "k": draw(st.one_of(st.none(), st.integers(0, R))), "latency": draw(st.integers(0, 3))}
+                "k": draw(st.one_of(st.none(), st.integers(0, R), st.integers(0, 15).map(lambda d: "slow:%d" % d), st.just("short"),
+                                    st.tuples(st.integers(0, 15), st.integers(0, 15)).map(lambda t: "fragslow:%d:%d" % (min(t), max(t))))),
+                "latency": draw(st.integers(0, 3))}
 
     def body(case):
         for p in case["prefix"]:
@@ -262,7 +297,7 @@ def run(ctx):
     for transport in ("udp", "aa55", "tcp"):
         for keep in (False, True):
             for (T, R) in ((1.0, 2), (0.5, 1)) if ctx.quick else ((1.0, 2), (0.5, 1), (2.0, 3), (4.0, 0)):
-                for gap in (0, "idle") + (() if ctx.quick else (5,)):
+                for gap in (0, "idle", 5) + (() if ctx.quick else (11,)):
                     jobs.append((transport, keep, T, R, gap))
     ctx.shard(enum_job, jobs, "exhaustive prefixes of length <= 2 over all outcome classes, probe silent / answered on last retransmission")
     ctx.exhaustive_parts.append("all prefixes of length <= 2 over the outcome classes per (transport, keep-alive, (T,R), gap)")
